@@ -340,7 +340,38 @@ BODY_MUTATIONS = ["crlf_all", "cr_all", "crlf_one", "cr_one", "tab",
                   "trailing_newline", "trailing_space", "nbsp"]
 
 
+def _concat_job(case):
+    """Key material that runs together: what is hashed for one template is
+    what is hashed for another one (or for a sequence of others) when the
+    pieces are written one after the other."""
+    kw = {"options": {"strict": False},
+          "kwargs": {"flag": True, "reach": False}}
+    x = "<p>first ${1 + 1}</p>"
+    y = "<p>second ${2 + 2}</p>"
+    kind = case["kind"]
+    if kind == "class_suffix":
+        a = dict(kw, cls="SubA", body=x)
+        b = dict(kw, cls="A", body=x + "Sub")
+        procs = [[a], [b]] if case["two_procs"] else [[a, b]]
+        if case["order"]:
+            procs = [list(reversed(p)) for p in reversed(procs)]
+    else:
+        names = {"class_between": "PageTemplate", "nothing_between": "",
+                 "text_class_between": "PageTextTemplate"}
+        z = x + names[kind] + y
+        cx, cy, cz = (dict(kw, cls="PageTemplate", body=b_)
+                      for b_ in (x, y, z))
+        procs = [[[cx, cy], [cz]], [[cz], [cx, cy]], [[cx, cy, cz]],
+                 [[cy, cx], [cz]], [[cx], [cy], [cz]]][case["order"] % 5]
+    try:
+        return (case, run_history(procs), None)
+    except HarnessError as e:
+        return (case, None, str(e))
+
+
 def _body_job(case):
+    if case.get("base") == "concat":
+        return _concat_job(case)
     cls, body = BODY_BASES[case["base"]]
     a = {"cls": cls, "body": body, "options": {"strict": False},
          "kwargs": {"flag": True, "reach": False}}
@@ -392,6 +423,14 @@ class Bodies(Stage):
                                               "pos": pos + seed,
                                               "order": order,
                                               "two_procs": two})
+        for kind in ("class_suffix", "class_between", "nothing_between",
+                     "text_class_between"):
+            for order in range(2 if kind == "class_suffix" else 5):
+                for two in ((False, True) if kind == "class_suffix"
+                            else (False,)):
+                    cases.append({"base": "concat", "kind": kind,
+                                  "order": order, "two_procs": two,
+                                  "pos": 0})
         ctx = multiprocessing.get_context("fork")
         with ctx.Pool(NCPU) as pool:
             res = pool.map(_body_job, cases, chunksize=1)
@@ -667,6 +706,103 @@ class Writers(Stage):
         }
 
 
+def _threads_job(args):
+    """One child process plays a chunk of thread schedules."""
+    schedules, nthreads = args
+    cfg = CRASH_CFGS["small"]
+    cache = tempfile.mkdtemp(prefix="c15-")
+    try:
+        rc, res, raw = child(cache, {"mode": "sched", "jobs": [cfg],
+                                     "schedules": schedules,
+                                     "threads": nthreads}, timeout=900)
+        if res is None:
+            return (args, None, "child failed rc=%s %r" % (rc, raw))
+        return (args, res["sched"], None)
+    finally:
+        shutil.rmtree(cache, ignore_errors=True)
+
+
+class ThreadWriters(Stage):
+    """Two (three) threads of one process store and load the same entry
+    under harness-owned line-level schedules inside ModuleLoader.get /
+    build / _load and BaseTemplate._cook (the process-wide lock and the
+    reuse of loaded modules through sys.modules)."""
+    name = "threadwriters"
+
+    def oracle(self, case):
+        a, res, err = _threads_job(([[0, case["schedule"]]],
+                                    case.get("threads", 2)))
+        if err:
+            raise HarnessError(err)
+        m = self.judge(res[0])
+        return m
+
+    @staticmethod
+    def judge(r):
+        if "blocked" in r:
+            raise HarnessError("schedule blocked: " + r["blocked"])
+        want = "<p>7</p>" + r["marker"]
+        for i, x in enumerate(r["results"]):
+            if x.get("out") != want:
+                return Mismatch("threadwriters:a thread's outcome differs",
+                                {"thread": i, "got": x, "expected": want})
+        return None
+
+    def run(self, tier, seed, check):
+        # calibration: steps of a thread running alone
+        a, res, err = _threads_job(([[0, [0] * 100000]], 2))
+        if err:
+            raise HarnessError(err)
+        if "blocked" in res[0]:
+            raise HarnessError(res[0]["blocked"])
+        n0 = res[0]["steps"][0]
+        if n0 < 10:
+            raise HarnessError("too few yield points: %r" % (res[0],))
+        single = [[a_] * k + [1 - a_] * 1000 for a_ in (0, 1)
+                  for k in range(0, n0 + 1)]
+        double = [[a_] * k + [1 - a_] * j + [a_] * 1000 for a_ in (0, 1)
+                  for k in range(0, n0 + 1) for j in range(1, n0 + 1)]
+        import random
+        rnd = random.Random(seed)       # sampling of an enumerated space
+        rnd.shuffle(double)
+        double = double[:40 if tier == "quick" else 1500]
+        three = [[rnd.randint(0, 2) for _ in range(3 * n0)]
+                 for _ in range(10 if tier == "quick" else 300)]
+        jobs = []
+        numbered = list(enumerate(single + double))
+        size = max(1, len(numbered) // NCPU + 1)
+        for i in range(0, len(numbered), size):
+            jobs.append(([[k, s] for k, s in numbered[i:i + size]], 2))
+        jobs.append(([[10000 + k, s] for k, s in enumerate(three)], 3))
+        ctx = multiprocessing.get_context("fork")
+        with ctx.Pool(NCPU) as pool:
+            out = pool.map(_threads_job, jobs, chunksize=1)
+        failures, harness = [], []
+        n = 0
+        for (schedules, nt), res, err in out:
+            if err:
+                harness.append(err)
+                continue
+            by_k = {k: s for k, s in schedules}
+            for r in res:
+                n += 1
+                if "blocked" in r:
+                    harness.append(r["blocked"])
+                    continue
+                m = self.judge(r)
+                if m is not None and not failures:
+                    failures.append(({"schedule": by_k[r["k"]],
+                                      "threads": nt}, m))
+        return {
+            "evaluations": n,
+            "nontrivial_ids": ["t%d" % i for i in range(n)],
+            "failures": failures[:2], "harness": harness[:3],
+            "samples": [{"schedule": single[3][:12], "threads": 2}],
+            "info": {"yield_points_per_thread": n0, "single": len(single),
+                     "double": len(double), "three_threads": len(three)},
+        }
+
+
 CHECK = Check(
     "C15", "fault_enumeration",
     rule=("pairs: exhaustive: base configuration x %d single-option variants "
@@ -679,7 +815,7 @@ CHECK = Check(
           "non-trivial = pair/history with >= 2 configurations, every crash "
           "point, interleavings in which both writers are active before the "
           "first finishes" % len(VARIANTS)),
-    stages=[Pairs(), Bodies(), Mix(), Crash(), Writers()],
+    stages=[Pairs(), Bodies(), Mix(), Crash(), Writers(), ThreadWriters()],
     assumptions=[
         "a crash is process death (os._exit): data already handed to the "
         "kernel survives, Python-level buffers are lost; power-loss "
